@@ -139,8 +139,9 @@ def wrapper_forwards(b, name):
     ok = (len(body) == 1 and isinstance(body[0], ast.Return) and isinstance(body[0].value, ast.Call)
           and ast.unparse(body[0].value.func) == "cf_" + name
           and [ast.unparse(a) for a in body[0].value.args] == fn.params and not body[0].value.keywords)
-    ground(b, f"{fn.key}::forwards", fn.key, f"python wrapper {name} returns cf_{name}(its argument) unchanged", ok,
-           detail=ast.unparse(fn.node)[:200])
+    simple = len(body) == 1 and isinstance(body[0], ast.Return) and isinstance(body[0].value, ast.Call)
+    structural(b, f"{fn.key}::forwards", fn.key, f"python wrapper {name} returns cf_{name}(its argument) unchanged", "ok" if ok else ("wrong" if simple else "unknown"),
+               detail=ast.unparse(fn.node)[:200])
 
 
 def constants(b):
